@@ -541,4 +541,16 @@ theorem ghost_done_mem {log : List Ev} {id : Id} (h : ghost log id = .done) :
       obtain ⟨l, hl⟩ := ih h
       exact ⟨l, List.mem_cons_of_mem _ hl⟩
 
+/-- converse of `ghost_pending_split` -/
+theorem ghost_of_split {log newer older : List Ev} {id : Id} {l d m : Nat}
+    (h : log = newer ++ Ev.sched id l d m :: older) (hn : ∀ e ∈ newer, e.id ≠ id) :
+    ghost log id = .pending l d m := by
+  subst h
+  induction newer with
+  | nil => exact ghost_sched_same id l d m older
+  | cons e rest ih =>
+    show ghost (e :: (rest ++ Ev.sched id l d m :: older)) id = _
+    rw [ghost_other e _ id (hn e List.mem_cons_self)]
+    exact ih (fun x hx => hn x (List.mem_cons_of_mem _ hx))
+
 end OZ.Timelock
